@@ -57,7 +57,9 @@ CLAIMED["C06"] = dict(
     text="As C05 for the blocking parser with Interrupted results and for both entry points, with payload octets after "
          "the end tag: Trace_Stream requires every buffer offered to the source to be exactly the rest of the current "
          "element (no read-ahead for any source), consumption to stop on the end tag, and the payload / returned "
-         "reader to yield exactly the octets after it.",
+         "reader to yield exactly the octets after it. The same run also validates the element-level reader API "
+         "(MC_Reader / Trace_Reader, a specification extension whose rejections are reported as SPEC-EXTENSION-REJECTED, "
+         "not as violations of C06).",
     note="Payloads up to 64 KiB (4 MiB thorough); exhaustive chunkings for short messages. Trusted: harness sources.",
     technique="TLA+ model checking of the stream design (TLC) + replay of TLC schedules + TLC trace validation of every read call",
     ref="DESIGN.md section 6 C06")
@@ -75,10 +77,11 @@ CLAIMED["C08"] = dict(
          "bridges, consumer buffer sizes incl. 0, source chunks, not-ready / Interrupted answers; termination under "
          "fairness) for the 3 payload kinds x 2 consumer interfaces and prints every behaviour; the harness replays "
          "them at scales 1..65536 and random schedules on real messages; TLC validates every consumer call against "
-         "Trace_Payload.",
+         "Trace_Payload. Apalache discharges an inductive invariant of the same chain for arbitrary lengths, buffers "
+         "and deliveries (spec/apalache/PayloadInd.tla) and must refute the payload-first deviation.",
     note="Octet comparison against to_bytes()+pattern is reported by the harness as a flag (TLC cannot hold MiB); "
-         "model bound HLen=2, PLen=3; MiB scales sampled.",
-    technique="TLA+ model checking of the chain design (TLC, safety + liveness) + replay of TLC behaviours + TLC trace validation",
+         "TLC model bound HLen=2, PLen=3 (unbounded in the Apalache argument, design level); MiB scales sampled.",
+    technique="TLA+ model checking of the chain design (TLC, safety + liveness; Apalache inductive invariant) + replay of TLC behaviours + TLC trace validation",
     ref="DESIGN.md section 6 C08")
 CLAIMED["C15"] = dict(
     text="TLC checks a step-cost counter of the parser design against a linear bound on every stream of the bound "
@@ -122,9 +125,11 @@ CLAIMED["C19"] = dict(
          "the container model and checks it against the declarative statement (one group per kind in first-use order, "
          "latest attribute per name); each history is replayed on the real IppAttributes and TLC validates groups(), "
          "groups_of() and into_groups(); the value iterator is recorded for every value of C01's corpus and validated "
-         "against Iter.",
-    note="Bounded: <= 4/5 additions, 3 kinds x 2 names x 2 values. Member-name byte order computed by the harness.",
-    technique="TLA+ model checking of the container (TLC) + replay of TLC histories + TLC trace validation",
+         "against Iter. Apalache discharges an inductive invariant of the container for any number of additions with "
+         "arbitrary values (spec/apalache/AttrsInd.tla) and must refute two deviations.",
+    note="TLC / replay bounded: <= 4/5 additions, 3 kinds x 2 names x 2 values (unbounded in the Apalache argument, design "
+         "level). Member-name byte order computed by the harness.",
+    technique="TLA+ model checking of the container (TLC; Apalache inductive invariant) + replay of TLC histories + TLC trace validation",
     ref="DESIGN.md section 6 C19")
 CLAIMED["C10"] = dict(
     text="The builders are modelled operationally (fields, then additions in code order) next to the declarative "
